@@ -74,6 +74,7 @@ type node struct {
 	Nonce int    `json:"nonce,omitempty"`
 	Gas   int    `json:"gas,omitempty"`
 	Bad   bool   `json:"bad,omitempty"` // eth: tampered signature
+	As    *int   `json:"as,omitempty"`  // eth: actor whose address is written into the unsigned From field
 	G     int    `json:"g,omitempty"`
 	C     []node `json:"c,omitempty"`
 }
@@ -238,6 +239,9 @@ func (w *world) build(n node, top bool, b *built) (sdk.Msg, error) {
 			msg.Hash = msg.AsTransaction().Hash().Hex()
 		}
 		msg.From = ""
+		if n.As != nil {
+			msg.From = gethcommon.BytesToAddress(w.addr(*n.As)).Hex()
+		}
 		b.hashes = append(b.hashes, msg.AsTransaction().Hash().Hex())
 		if top {
 			b.fee += int64(n.Gas) * priceUnibi
@@ -483,6 +487,9 @@ func (g *gen) wrap(cur node, depth, signer int, needs *[][3]interface{}) node {
 			if r.Chance(2, 3) {
 				gr = signer
 			}
+			if cur.K == "eth" && cur.As != nil && r.Chance(3, 4) {
+				gr = *cur.As
+			}
 			if r.Chance(1, 8) {
 				gr = g.actor()
 			}
@@ -521,7 +528,14 @@ func (g *gen) genCase() caseIn {
 				g.seq[from] += local[from]
 				l := g.ethLeaf(from)
 				g.seq[from] = save
-				if l.Bad || l.Nonce != save+local[from] {
+				if r.Chance(1, 15) {
+					as := from
+					if r.Chance(1, 2) {
+						as = r.Intn(nUsers)
+					}
+					l.As = &as
+				}
+				if l.Bad || l.As != nil || l.Nonce != save+local[from] {
 					allOK = false
 				}
 				local[from]++
@@ -556,6 +570,17 @@ func (g *gen) genCase() caseIn {
 				case 0:
 					leaf = g.ethLeaf(idEth0 + r.Intn(nEth))
 					leaf.Bad = leaf.Bad && r.Chance(1, 2)
+					if r.Chance(2, 5) {
+						// the unsigned From field names somebody else: the tx signer (mostly), the contract, anyone
+						as := signer
+						switch r.Pick(6, 2, 1) {
+						case 1:
+							as = idContract
+						case 2:
+							as = g.actor()
+						}
+						leaf.As = &as
+					}
 				case 1:
 					leaf = node{K: "send", From: signer}
 				default:
@@ -614,6 +639,7 @@ func (g *gen) genCase() caseIn {
 
 func openers() []caseIn {
 	eth := func(from, nonce int) node { return node{K: "eth", From: from, Nonce: nonce, Gas: 21000} }
+	ethAs := func(as, from, nonce int) node { return node{K: "eth", From: from, Nonce: nonce, Gas: 50000, As: &as} }
 	ex := func(g int, c ...node) node { return node{K: "exec", G: g, C: c} }
 	wa := func(c ...node) node { return node{K: "wasm", G: 0, C: c} }
 	evm := func(ms ...node) txIn { return txIn{Ext: "evm", Key: "none", Signer: -1, Msgs: ms} }
@@ -634,6 +660,10 @@ func openers() []caseIn {
 		// Cosmos transactions signed with an eth_secp256k1 key (Hsig probe)
 		{Txs: []txIn{{Key: "eth", Signer: 20, Msgs: []node{ex(20, ex(20, eth(20, 0)))}}, {Key: "eth", Signer: 20, Msgs: []node{{K: "send", From: 20}}},
 			{Key: "eth", Signer: 20, Msgs: []node{ex(20, node{K: "grant", From: 20, To: 1, T: "eth"})}}, cos(1, ex(1, ex(1, eth(20, 0)))), evm(eth(20, 0))}},
+		// the unsigned From field naming the outer signer / grantee / contract (GetSigners must not read it)
+		{Txs: []txIn{evm(eth(20, 0)), evm(eth(20, 1)), cos(1, ex(1, ex(1, ethAs(1, 20, 0)))), cos(1, ex(1, ethAs(1, 20, 0))), cos(1, ethAs(1, 20, 0)),
+			cos(0, wa(ex(idContract, ethAs(idContract, 20, 0)))), cos(0, wa(ethAs(idContract, 20, 0))), cos(2, ex(2, ex(2, ex(2, ethAs(2, 21, 0))))),
+			evm(ethAs(20, 20, 2)), evm(eth(20, 2))}},
 		// extension-option routing with the wrong content
 		{Txs: []txIn{{Ext: "evm", Key: "cosmos", Signer: 1, Msgs: []node{{K: "send", From: 1}}}, {Ext: "evm", Key: "none", Signer: -1, Msgs: []node{eth(20, 0), {K: "send", From: 1}}},
 			{Ext: "other", Key: "none", Signer: -1, Msgs: []node{eth(20, 0)}}, {Ext: "other", Key: "cosmos", Signer: 1, Msgs: []node{{K: "send", From: 1}}},
